@@ -8,7 +8,8 @@ from harness.props import c01, c12
 PID = 'C11'
 LEVEL = 'proof'
 RULE = ('gin-machine/bind: configurables with allowlist / denylist / neither, with and without **kwargs; '
-        'parameter names drawn from {valid, unknown, listed, unlisted}; known / unknown / ambiguous selectors; '
+        'parameter names drawn from {valid, unknown, listed, unlisted, the name of the *args / **kwargs parameter itself}; '
+        'known / unknown / ambiguous selectors; '
         'the same logical binding issued through string keys, tuple keys, config text, scoped keys, macro form '
         'and finalize hooks; store compared before/after every rejected op. non-trivial = a rejected binding '
         'through a non-string path (tuple / text / hook) on a configurable that has a list.')
@@ -55,7 +56,35 @@ class BindEngine(Engine):
         ['pbind', 's1/s2/m.f.b', ['i', 3]], ['bind', 'g.a', ['i', 1]], ['bind', 'g.zzz', ['i', 1]],
         ['bindt', '', 'n.g', 'a', ['i', 1]], ['bind', 'nosuch.a', ['i', 1]], ['pbind', 'f.k1', ['i', 9]],
         ['hook', ['return', [['f.b', ['i', 5]]]]], ['finalize'], ['dumpconfig'], ['call', 'm.f', [['i', 0]], []],
-        ['dumpcalls']]}]
+        ['dumpcalls']]}] + self._var_parameter_corpus()
+
+  @staticmethod
+  def _var_parameter_corpus():
+    """the NAME of the *args parameter (`_va` in every probe) of a function / constructor / registered method without
+    **kwargs is not a parameter the signature can accept (Gin supplies by keyword only): rejected on every path, in
+    every scope, store unchanged, never injected.  With **kwargs it is one more free keyword."""
+    def sig(args=(), kwonly=(), varkw=False):
+      return {'args': list(args), 'defaults': [], 'varargs': True, 'kwonly': [list(k) for k in kwonly], 'varkw': varkw}
+    collect = {'sel': 'm.collect', 'sig': sig(['a'], [['k1', ['b', False]]]), 'allow': [], 'deny': [], 'shape': 'fn'}
+    gather = {'sel': 'n.gather', 'sig': sig([], [['k1', ['i', 0]], ['k2', ['i', 1]]]), 'allow': [], 'deny': ['k1'], 'shape': 'fn'}
+    stack = {'sel': 'pkg.Stack', 'sig': sig([], [['k2', ['s', 'x']]]), 'allow': [], 'deny': [], 'shape': 'cls_init'}
+    kls = {'sel': 'm.Kls', 'sig': sig(['a']), 'allow': [], 'deny': [], 'shape': 'cls_init'}
+    run = {'sel': 'm.Kls.run', 'sig': sig([], [['k1', ['b', False]]]), 'allow': [], 'deny': [], 'shape': 'method', 'holder': 'm.Kls'}
+    anything = {'sel': 'n.anything', 'sig': sig([], [], True), 'allow': [], 'deny': [], 'shape': 'fn'}
+    tail = [['dumpconfig'], ['call', 'm.collect', [['i', 0]], []], ['call', 'n.gather', [], []], ['call', 'pkg.Stack', [], []],
+            ['call', 'n.anything', [], []], ['dumpcalls']]
+    v = ['l', [['i', 2], ['i', 3]]]
+    return [
+        {'regs': [collect, gather, stack, kls, run, anything], 'ops': [
+            ['bind', 'collect.a', ['i', 1]], ['bind', 'collect.k1', ['b', True]], ['bind', 'anything._va', ['s', 'x']],
+            ['bind', 'collect._va', v], ['bind', 's1/s2/collect._va', v], ['bindt', '', 'gather', '_va', v],
+            ['bindt', 's1', 'Stack', '_va', v], ['pbind', 'collect._va', v], ['pbind', 's1/pkg.Stack._va', v],
+            ['bind', 'Kls.run._va', v], ['pbind', 'm.Kls.run._va', v], ['bindt', 's2', 'Kls', '_va', v],
+            ['bind', 'anything._kw', ['i', 1]]] + tail},
+        {'regs': [collect, gather, stack, anything], 'ops': [
+            ['bind', 'gather.k2', ['i', 5]], ['hook', ['return', [['s1/gather._va', ['i', 5]]]]], ['finalize'], ['locked'],
+            ['pbind', 'gather._va', v]] + tail},
+    ]
 
   def gen(self, rng, tier):
     regs = ginm.gen_regs(rng, lists=0.6, allow_req=False, sels=['f', 'm.f', 'n.m.g', 'm.g', 'pkg.h', 'n.f'], shapes=True, methods=0.35)
@@ -73,6 +102,10 @@ class BindEngine(Engine):
         p = rng.choice(['zz', 'a', 'b', 'k1', 'value'])
       else:
         p = rng.choice(c['deny'] or c['allow'] or ['q'])
+      if (c['sig']['varargs'] or c['sig']['varkw']) and rng.random() < 0.25:
+        # the name of the *args / **kwargs parameter itself: it is written in the signature, but the signature cannot
+        # accept it by keyword (only a **kwargs configurable takes it, as one more free keyword)
+        p = '_va' if c['sig']['varargs'] and (not c['sig']['varkw'] or rng.random() < 0.7) else '_kw'
       x = rng.random()
       if x < 0.7:
         sel = rng.choice(ginm.spellings(c['sel'], regs))
@@ -401,13 +434,30 @@ _SIGS = [
     {'args': [['a', 1], ['b', 2], ['depth', 3]], 'varkw': False},
     {'args': [['a', 1]], 'varkw': True},
     {'args': [], 'varkw': False},
+    # a NAMED *args parameter (and keyword-only parameters behind it): its name is written in the signature, but the
+    # signature cannot accept it by keyword, which is the only way Gin supplies a value
+    {'args': [['a', 1]], 'varargs': 'rest', 'kwonly': [['depth', 0]], 'varkw': False},
+    {'args': [], 'varargs': 'args', 'kwonly': [['x', 1]], 'varkw': False},
+    {'args': [['size', 1], ['depth', 2]], 'varargs': 'items', 'varkw': False},
+    {'args': [['x', 5]], 'varargs': 'rest', 'varkw': True},
 ]
 _UNKNOWN_ARGS = ['zz', 'bogus', 'kw', 'args', 'kwargs', 'Depth', 'value']
+
+
+def _sig_params(sig):
+  """[(name, default)] of the parameters the signature accepts by keyword: positional-or-keyword and keyword-only ones;
+  NOT the *args / **kwargs parameters."""
+  return [(a, d) for a, d in sig['args']] + [(a, d) for a, d in sig.get('kwonly', [])]
 _VALS = [0, 1, 2, 7, -1, True, None, 'big', ' ']
 
 
 def _fn_src(name, sig, kind, deco, indent):
-  params = ['%s=%r' % (a, d) for a, d in sig['args']] + (['**kw'] if sig['varkw'] else [])
+  params = ['%s=%r' % (a, d) for a, d in sig['args']]
+  if sig.get('varargs'):
+    params.append('*' + sig['varargs'])
+  elif sig.get('kwonly'):
+    params.append('*')
+  params += ['%s=%r' % (a, d) for a, d in sig.get('kwonly', [])] + (['**kw'] if sig['varkw'] else [])
   if kind != 'fn':
     params = ['self'] + params
   pad = ' ' * indent
@@ -436,9 +486,10 @@ class DynamicRegistrationBindEngine(_RouteEngine):
   name = 'dynamic-registration-binds'
   rule = ('dynamic-registration-binds: a module (top-level or in a package, `import m` / `from p import m`) with 1-2 classes '
           '(1-2 methods each; class registered by the parser or by decorators -- with allowlist / denylist / neither --, then '
-          'possibly re-registered by the parser) and 0-2 functions (plain, or registered by decorator with / without lists); a dynamic file of 1-4 valid statements naming methods / classes / functions; then 3-10 bindings '
+          'possibly re-registered by the parser) and 0-2 functions (plain, or registered by decorator with / without lists); signatures '
+          'with / without a named *args parameter, keyword-only parameters and **kwargs; a dynamic file of 1-4 valid statements naming methods / classes / functions; then 3-10 bindings '
           'through string, tuple, text, text+skip_unknown, block, finalize-hook and further dynamic-file paths, spelled bare / '
-          'Class.method / module-qualified / wrong, with valid, unknown, listed and unlisted parameters, in 3 scopes; accept predicate from the '
+          'Class.method / module-qualified / wrong, with valid, unknown, listed and unlisted parameters and the name of the *args parameter, in 3 scopes; accept predicate from the '
           'module description, configuration compared before/after every rejection, every callable called at the end. '
           'non-trivial = a rejection through a non-string path.')
 
@@ -516,6 +567,21 @@ class DynamicRegistrationBindEngine(_RouteEngine):
             ops += [[path, '', q + 'Vault', 'size', 5], [path, 's1', q + 'fun', 'size', 5]]
           ops += [['str', '', 'Vault', 'a', 6], ['text', 's1', 'Vault.open', 'depth', 2]]
           cases.append(self._case(spec, setup, ops))
+    # the NAME of a *args parameter -- of a function, of a constructor, of a method; parser-registered or decorated,
+    # with and without a denylist -- is rejected on every path (one case per path); with **kwargs it is a free keyword
+    coll = {'name': 'fun', 'sig': _SIGS[7]}
+    anyf = {'name': 'helper', 'sig': _SIGS[10], 'deco': True}
+    stack = {'name': 'Widget', 'route': 'dyn', 'init': _SIGS[8], 'methods': [{'name': 'render', 'sig': _SIGS[9], 'deco': False}]}
+    deck = {'name': 'Panel', 'route': 'deco', 'init': _SIGS[9], 'deny': ['size'],
+            'methods': [{'name': 'paint', 'sig': _SIGS[7], 'deco': True}]}
+    spec = {'name': 'c11dyn', 'imp': 'import', 'classes': [stack, deck], 'funs': [coll, anyf]}
+    setup = [['', 'fun', 'a', 4], ['', 'Widget.render', 'depth', 3], ['s1', 'Widget', 'x', 2]]
+    for path in _PATHS:
+      q = 'c11dyn.' if path == 'dyntext' else ''
+      cases.append(self._case(spec, setup, [
+          ['str', '', 'helper', 'rest', 7], [path, '', q + 'fun', 'rest', [2, 3]], [path, 's1/s2', q + 'Widget', 'args', [1]],
+          [path, 's1', q + 'Widget.render', 'items', [1]], [path, '', q + 'Panel.paint', 'rest', 1],
+          [path, '', q + 'Panel', 'items', 1], [path, 's1', q + 'fun', 'depth', 5]]))
     return cases
 
   def gen(self, rng, tier):
@@ -523,7 +589,7 @@ class DynamicRegistrationBindEngine(_RouteEngine):
     classes = []
 
     def gen_lists(sig):
-      names = [a for a, _ in sig['args']]
+      names = [a for a, _ in _sig_params(sig)]
       r = rng.random()
       if not names or r < 0.4:
         return {}
@@ -550,16 +616,18 @@ class DynamicRegistrationBindEngine(_RouteEngine):
     root = self._root(spec)
 
     def pick_arg(sig, valid):
-      names = [a for a, _ in sig['args']]
+      names = [a for a, _ in _sig_params(sig)]
       if valid and (names or sig['varkw']):
         return rng.choice(names + (['extra'] if sig['varkw'] else []))
-      return rng.choice(_UNKNOWN_ARGS + ['depth', 'x', 'a', 'size'])
+      if sig.get('varargs') and rng.random() < 0.5:
+        return sig['varargs']           # the name of the *args parameter itself
+      return rng.choice(_UNKNOWN_ARGS + ['depth', 'x', 'a', 'size', 'rest', 'items'])
 
     setup = []
     for _ in range(rng.randint(1, 4)):
       o = rng.choice(paths_)
       sig, allow, deny = objs[o][0], objs[o][4], objs[o][5]
-      ok = [a for a in [a for a, _ in sig['args']] + (['extra'] if sig['varkw'] else [])
+      ok = [a for a in [a for a, _ in _sig_params(sig)] + (['extra'] if sig['varkw'] else [])
             if (not allow or a in allow) and a not in deny]
       if ok:        # every statement of the dynamic file is valid
         setup.append([rng.choice(_SCOPES), o, rng.choice(ok), rng.choice(_VALS)])
@@ -629,7 +697,7 @@ class DynamicRegistrationBindEngine(_RouteEngine):
 
     def info(o, state):
       sig, is_method, _, _, allow, deny = objs[o]
-      return {'params': [a for a, _ in sig['args']], 'posonly': [], 'varkw': sig['varkw'], 'allow': list(allow),
+      return {'params': [a for a, _ in _sig_params(sig)], 'posonly': [], 'varkw': sig['varkw'], 'allow': list(allow),
               'deny': list(deny), 'method': is_method, 'state': state, 'obj': o}
 
     table = {name + '.' + o: info(o, 'yes' if objs[o][3] else 'no') for o in objs}
@@ -678,7 +746,7 @@ class DynamicRegistrationBindEngine(_RouteEngine):
 
     def expect(o, scope):
       sig = objs[o][0]
-      want = {a: d for a, d in sig['args']}
+      want = {a: d for a, d in _sig_params(sig)}
       bound = _merged(store, scope, name + '.' + o) if table[name + '.' + o]['state'] == 'yes' else {}
       kw = {}
       for p, v in bound.items():
@@ -686,6 +754,8 @@ class DynamicRegistrationBindEngine(_RouteEngine):
           want[p] = v
         else:
           kw[p] = v
+      if sig.get('varargs'):
+        want[sig['varargs']] = ()       # the calls below pass no positional argument, and Gin supplies keywords only
       if sig['varkw']:
         want['kw'] = kw
       return want
